@@ -4,6 +4,7 @@ connection DAGs from JSON specs, and execution of request ops."""
 
 import collections.abc
 import base64
+import copy
 import email.message
 import http.client
 import io
@@ -280,6 +281,8 @@ def make_adapter(spec, classes):
         cls = HeaderAdder
         if spec.get("nodescr"):
             cls = _nodescr(HeaderAdder)
+        if spec.get("rebind"):
+            cls = _rebinding(cls)
         if spec.get("falsy"):
             # an application adapter that is also a container (its session values live in it) and is empty - falsy -
             # when it is attached
@@ -310,6 +313,19 @@ def make_adapter(spec, classes):
 
 
 _ND = {}
+_RB = {}
+
+
+def _rebinding(cls):
+    """the same header adapter written the other natural way: it assigns a new mapping (same type, same items plus
+    its own) to req_args.headers instead of changing the one that is there"""
+    if cls not in _RB:
+        def process_req_args(self, req_args):
+            merged = copy.copy(req_args.headers)
+            merged[self.name] = self.value
+            req_args.headers = merged
+        _RB[cls] = type(cls.__name__ + "RB", (cls,), {"process_req_args": process_req_args})
+    return _RB[cls]
 
 
 def _nodescr(cls):
